@@ -1,3 +1,305 @@
-import Arrai.C17.Model
+/-
+  C17 — the server engine applies updates atomically, in order, and never wedges.
+
+  Property theorems only (model: Arrai/C17/Model.lean, helper lemmas: Arrai/C17/Lemmas.lean).
+  They quantify over every type `S` of database values, every initial value, every finite list of
+  messages (= every interleaving of concurrent clients, see Model.lean), every expression
+  (`S → Option S`), every callback script and every enumeration order of the watcher map.
+
+  `Impl` is the repaired loop.  The hypothesis `noReenter h` ("no callback calls the cancel function
+  of its own observation") is the class of the open finding KF-engine-reentrant-cancel: for each
+  `_partial` result there is a `_full` statement without it and a `_full_false` witness.  `Old` is the loop before
+  the repair; part 6 machine-checks the two repaired defects on it.
+-/
+import Arrai.C17.Lemmas
+
 namespace Arrai.C17.Theorems
+open Arrai.C17
+
+variable {S : Type}
+
+/-- the open finding's witness: the second invocation of observer 1's callback calls its own cancel -/
+def reentrant : List (Msg Nat) :=
+  [.add (fun s => some s) [.ok, .reenter], .add (fun s => some s) [],
+   .update (fun _ => some 1) [], .update (fun _ => some 2) []]
+
+/-- the same history with a well-behaved observer 1 -/
+def benign : List (Msg Nat) :=
+  [.add (fun s => some s) [], .add (fun s => some s) [],
+   .update (fun _ => some 1) [], .update (fun _ => some 2) []]
+
+/-- a history satisfying `noReenter` that exercises everything else: failing and state-dependent
+expressions, callbacks that return an error or panic, cancel twice, cancel of an unknown id, hang-up -/
+def eventful : List (Msg Nat) :=
+  [.add (fun _ => none) [], .update (fun s => some (s + 1)) [], .add (fun s => some s) [.ok, .err],
+   .add (fun s => if s % 2 = 0 then some s else none) [.panic], .add (fun s => some (2 * s)) [],
+   .update (fun s => some (s + 1)) [1], .update (fun _ => none) [], .remove 4, .remove 4, .remove 9,
+   .update (fun s => some (s + 1)) [], .hangup [], .add (fun s => some s) [], .update (fun s => some (s + 1)) []]
+
+/-- every hypothesis used below is satisfiable by a non-trivial history -/
+example : noReenter eventful = true ∧ Impl.replies (Impl.run 0 eventful) = [true, true, false, true, true]
+    ∧ Impl.log (Impl.run 0 eventful) 2 = [.val 1, .val 2, .closed true]
+    ∧ Impl.log (Impl.run 0 eventful) 4 = [.val 2, .val 4, .closed false] := by decide
+
+/-! ### Part 0 — the model of Go's unspecified map iteration order -/
+
+theorem enumeration_is_permutation {α : Type} (code : List Nat) (l : List α) : (permBy code l).Perm l :=
+  permBy_perm code l
+
+/-- and every enumeration order of the map is chosen by some code: quantifying over codes is quantifying
+over all orders in which Go may range over the map -/
+theorem every_enumeration_has_a_code {α : Type} (l l' : List α) (h : l'.Perm l) : ∃ code, permBy code l = l' :=
+  permBy_complete l' l h
+
+/-! ### Part 1 — the loop never crashes and never wedges -/
+
+theorem no_crash (g0 : S) (h : List (Msg S)) : (Impl.run g0 h).status ≠ .crashed :=
+  Impl.runFrom_status h (Impl.init g0) (fun e => Impl.Status.noConfusion e)
+
+theorem no_wedge_partial (g0 : S) (h : List (Msg S)) (hn : noReenter h = true) :
+    (Impl.run g0 h).status = .running :=
+  (Impl.run_refines g0 h hn).1.run
+
+def no_wedge_full : Prop := ∀ (g0 : Nat) (h : List (Msg Nat)), (Impl.run g0 h).status = .running
+
+theorem no_wedge_full_false : ¬ no_wedge_full := by
+  intro hf
+  have := hf 0 reentrant
+  revert this
+  decide
+
+/-! ### Part 2 — the loop refines the sequential specification -/
+
+theorem refines_partial (g0 : S) (h : List (Msg S)) (hn : noReenter h = true) :
+    abs (Impl.run g0 h) = Spec.run g0 h :=
+  (Impl.run_refines g0 h hn).2
+
+/-- `Stop` closes exactly the observers that are still live -/
+theorem stop_refines_partial (g0 : S) (h : List (Msg S)) (ord : List Nat) (hn : noReenter h = true) :
+    abs (Impl.stop (Impl.run g0 h) ord) = Spec.stop (Spec.run g0 h) := by
+  obtain ⟨hI, hr⟩ := Impl.run_refines g0 h hn
+  rw [(Impl.stop_refines _ ord hI).2, hr]
+
+def refines_full : Prop := ∀ (g0 : Nat) (h : List (Msg Nat)), abs (Impl.run g0 h) = Spec.run g0 h
+
+theorem refines_full_false : ¬ refines_full := by
+  intro hf
+  have := congrArg Spec.State.replies (hf 0 reentrant)
+  revert this
+  decide
+
+/-! ### Part 3 — every update is answered, exactly once, before anything else happens; effects in
+acknowledgement order -/
+
+theorem every_update_answered_partial (g0 : S) (h1 : List (Msg S)) (e : S → Option S) (ord : List Nat)
+    (hn : noReenter h1 = true) :
+    ∃ evs, (Impl.run g0 (h1 ++ [.update e ord])).trace
+        = (Impl.run g0 h1).trace ++ Impl.Out.reply (e (Impl.run g0 h1).global).isSome :: evs
+      ∧ evs.filterMap Impl.replyOf = [] := by
+  have hr := no_wedge_partial g0 h1 hn
+  have : Impl.run g0 (h1 ++ [.update e ord]) = Impl.step (Impl.run g0 h1) (.update e ord) := by
+    simp [Impl.run, Impl.runFrom, List.foldl_append]
+  rw [this]
+  exact Impl.step_update_answered _ e ord hr
+
+def every_update_answered_full : Prop :=
+  ∀ (g0 : Nat) (h1 : List (Msg Nat)) (e : Nat → Option Nat) (ord : List Nat),
+    ∃ evs, (Impl.run g0 (h1 ++ [.update e ord])).trace
+        = (Impl.run g0 h1).trace ++ Impl.Out.reply (e (Impl.run g0 h1).global).isSome :: evs
+      ∧ evs.filterMap Impl.replyOf = []
+
+theorem every_update_answered_full_false : ¬ every_update_answered_full := by
+  intro hf
+  obtain ⟨evs, h, _⟩ := hf 0 (reentrant.take 3) (fun _ => some 2) []
+  have hl := congrArg List.length h
+  have h1 : (Impl.run 0 (reentrant.take 3 ++ [Msg.update (fun _ => some 2) []])).trace.length
+      = (Impl.run 0 (reentrant.take 3)).trace.length := by decide
+  rw [h1, List.length_append, List.length_cons] at hl
+  omega
+
+/-- the database is the result of applying the accepted updates one at a time in the order of the
+rendezvous (= the order of the acknowledgements), and the acknowledgements are those of that sequential run -/
+theorem order_partial (g0 : S) (h : List (Msg S)) (hn : noReenter h = true) :
+    (Impl.run g0 h).global = Spec.dbAfter g0 (Spec.updates h)
+    ∧ Impl.replies (Impl.run g0 h) = Spec.acks g0 (Spec.updates h) := by
+  have hr := refines_partial g0 h hn
+  obtain ⟨h1, h2⟩ := Spec.runFrom_db_replies h (Spec.init g0)
+  constructor
+  · have := congrArg Spec.State.db hr
+    exact this.trans h1
+  · have := congrArg Spec.State.replies hr
+    exact this.trans (by rw [Spec.run, h2]; rfl)
+
+def order_full : Prop := ∀ (g0 : Nat) (h : List (Msg Nat)),
+  (Impl.run g0 h).global = Spec.dbAfter g0 (Spec.updates h)
+  ∧ Impl.replies (Impl.run g0 h) = Spec.acks g0 (Spec.updates h)
+
+theorem order_full_false : ¬ order_full := by
+  intro hf
+  have := (hf 0 reentrant).1
+  revert this
+  decide
+
+/-- exactly one reply per `Update`, none for anything else -/
+theorem one_reply_per_update_partial (g0 : S) (h : List (Msg S)) (hn : noReenter h = true) :
+    (Impl.replies (Impl.run g0 h)).length = (Spec.updates h).length := by
+  rw [(order_partial g0 h hn).2]
+  generalize Spec.updates h = us
+  induction us generalizing g0 with
+  | nil => rfl
+  | cons e r ih =>
+    simp only [Spec.acks]
+    cases e g0 with
+    | none => simp [ih g0]
+    | some v => simp [ih v]
+
+def one_reply_per_update_full : Prop := ∀ (g0 : Nat) (h : List (Msg Nat)),
+  (Impl.replies (Impl.run g0 h)).length = (Spec.updates h).length
+
+theorem one_reply_per_update_full_false : ¬ one_reply_per_update_full := by
+  intro hf
+  have := hf 0 reentrant
+  revert this
+  decide
+
+/-! ### Part 4 — delivery -/
+
+/-- the observer subscribed by `add e c` after `h1` is told the value of `e` on the state at its
+subscription and on every state installed afterwards, in order, until its expression fails, its
+callback fails, it is cancelled or the engine hangs up; and nothing after that -/
+theorem delivery_partial (g0 : S) (h1 : List (Msg S)) (e : S → Option S) (c : List Act) (h2 : List (Msg S))
+    (hn : noReenter (h1 ++ .add e c :: h2) = true) :
+    Impl.log (Impl.run g0 (h1 ++ .add e c :: h2)) ((Impl.run g0 h1).lastID + 1)
+      = Spec.expectedFrom ((Impl.run g0 h1).lastID + 1) e c (Impl.run g0 h1).global h2 := by
+  obtain ⟨hI, hr⟩ := Impl.run_refines g0 _ hn
+  have hn1 := ((noReenter_append h1 _).1 hn).1
+  have hr1 := refines_partial g0 h1 hn1
+  have hc : (Impl.run g0 h1).lastID = (Spec.run g0 h1).count := congrArg Spec.State.count hr1
+  have hd : (Impl.run g0 h1).global = (Spec.run g0 h1).db := congrArg Spec.State.db hr1
+  rw [Impl.log_abs _ hI, hr, hc, hd]
+  exact Spec.delivery g0 h1 e c h2
+
+def delivery_full : Prop :=
+  ∀ (g0 : Nat) (h1 : List (Msg Nat)) (e : Nat → Option Nat) (c : List Act) (h2 : List (Msg Nat)),
+    Impl.log (Impl.run g0 (h1 ++ .add e c :: h2)) ((Impl.run g0 h1).lastID + 1)
+      = Spec.expectedFrom ((Impl.run g0 h1).lastID + 1) e c (Impl.run g0 h1).global h2
+
+theorem delivery_full_false : ¬ delivery_full := by
+  intro hf
+  have := hf 0 (reentrant.take 1) (fun s => some s) [] (reentrant.drop 2)
+  revert this
+  decide
+
+/-- in particular: an observer whose expression `f` and callback never fail and that is not cancelled is
+told `f` of the state at subscription and of every state installed afterwards, in order -/
+theorem delivery_live_partial (g0 : S) (h1 : List (Msg S)) (f : S → S) (h2 : List (Msg S))
+    (hn : noReenter (h1 ++ .add (fun s => some (f s)) [] :: h2) = true)
+    (hq : h2.all (Spec.quiet ((Impl.run g0 h1).lastID + 1)) = true) :
+    Impl.log (Impl.run g0 (h1 ++ .add (fun s => some (f s)) [] :: h2)) ((Impl.run g0 h1).lastID + 1)
+      = ((Impl.run g0 h1).global :: Spec.installed (Impl.run g0 h1).global h2).map (fun s => Ev.val (f s)) := by
+  rw [delivery_partial g0 h1 _ [] h2 hn]
+  simp only [Spec.expectedFrom, List.headD_nil, List.tail_nil, List.map_cons]
+  rw [Spec.expected_live _ f h2 _ hq]
+
+/-! ### Part 5 — isolation -/
+
+/-- what an observer is told, and every reply, depend only on that observer's view of the history: the
+updates, the hang-ups, its own subscription and its own cancellations.  Other observers — whatever their
+expressions and callbacks do, however often they are cancelled, with known or unknown ids — and the
+enumeration orders of the map change nothing. -/
+theorem isolation_partial (g0 : S) (j : Nat) (h h' : List (Msg S))
+    (hn : noReenter h = true) (hn' : noReenter h' = true) (hv : Spec.view j 0 h = Spec.view j 0 h') :
+    Impl.log (Impl.run g0 h) j = Impl.log (Impl.run g0 h') j
+    ∧ Impl.replies (Impl.run g0 h) = Impl.replies (Impl.run g0 h') := by
+  obtain ⟨hI, hr⟩ := Impl.run_refines g0 h hn
+  obtain ⟨hI', hr'⟩ := Impl.run_refines g0 h' hn'
+  obtain ⟨i1, i2⟩ := Spec.isolation g0 j h h' hv
+  constructor
+  · rw [Impl.log_abs _ hI, Impl.log_abs _ hI', hr, hr', i1]
+  · have a := congrArg Spec.State.replies hr
+    have b := congrArg Spec.State.replies hr'
+    exact a.trans (i2.trans b.symm)
+
+def isolation_full : Prop := ∀ (g0 : Nat) (j : Nat) (h h' : List (Msg Nat)),
+  Spec.view j 0 h = Spec.view j 0 h' →
+    Impl.log (Impl.run g0 h) j = Impl.log (Impl.run g0 h') j
+    ∧ Impl.replies (Impl.run g0 h) = Impl.replies (Impl.run g0 h')
+
+theorem isolation_full_false : ¬ isolation_full := by
+  intro hf
+  have := (hf 0 2 reentrant benign rfl).2
+  revert this
+  decide
+
+/-- the order in which Go enumerates the watcher map is invisible to every observer and in every reply -/
+theorem enumeration_order_irrelevant_partial (g0 : S) (j : Nat) (h : List (Msg S)) (f : List Nat → List Nat)
+    (hn : noReenter h = true) :
+    Impl.log (Impl.run g0 (h.map (Spec.reorder f))) j = Impl.log (Impl.run g0 h) j
+    ∧ Impl.replies (Impl.run g0 (h.map (Spec.reorder f))) = Impl.replies (Impl.run g0 h) :=
+  isolation_partial g0 j _ h (by rw [Spec.noReenter_reorder]; exact hn) hn (Spec.view_reorder f j h 0)
+
+/-- onclose is called at most once per observer, and nothing is sent to an observer after it -/
+theorem closed_at_most_once_partial (g0 : S) (h : List (Msg S)) (hn : noReenter h = true) (j : Nat) :
+    Spec.noClose (Impl.log (Impl.run g0 h) j)
+    ∨ ∃ l0 b, Impl.log (Impl.run g0 h) j = l0 ++ [Ev.closed b] ∧ Spec.noClose l0 := by
+  obtain ⟨hI, hr⟩ := Impl.run_refines g0 h hn
+  rw [Impl.log_abs _ hI, hr]
+  have hw := Spec.run_wf g0 h j
+  cases ho : (Spec.run g0 h).obs j with
+  | fresh => left; intro x hx; simp [Spec.Obs.log] at hx
+  | live e c l => rw [ho] at hw; left; exact hw
+  | dead l => rw [ho] at hw; right; exact hw
+
+/-- after `Stop`, every observer that ever subscribed has been closed exactly once, as the last thing it heard -/
+theorem every_observer_closed_exactly_once_partial (g0 : S) (h : List (Msg S)) (ord : List Nat)
+    (hn : noReenter h = true) (j : Nat) (hj : 1 ≤ j ∧ j ≤ (Impl.run g0 h).lastID) :
+    ∃ l0 b, Impl.log (Impl.stop (Impl.run g0 h) ord) j = l0 ++ [Ev.closed b] ∧ Spec.noClose l0 := by
+  obtain ⟨hI, hr⟩ := Impl.run_refines g0 h hn
+  obtain ⟨hI2, hr2⟩ := Impl.stop_refines _ ord hI
+  rw [Impl.log_abs _ hI2, hr2]
+  show ∃ l0 b, (((abs (Impl.run g0 h)).obs j).close).log = _ ∧ _
+  have hw : ((abs (Impl.run g0 h)).obs j).WF := by rw [hr]; exact Spec.run_wf g0 h j
+  rw [Impl.abs_obs] at hw ⊢
+  unfold Impl.absObs at hw ⊢
+  cases hg : Impl.mapGet (Impl.run g0 h).watchers j with
+  | some w =>
+    rw [hg] at hw
+    exact ⟨_, false, rfl, hw⟩
+  | none =>
+    rw [hg] at hw
+    simp only [hj, and_self, ↓reduceIte] at hw ⊢
+    exact hw
+
+/-! ### Part 6 — the loop before the repair (`Old`): the two defects, machine-checked -/
+
+/-- an observer whose expression fails to evaluate; then an `Update` -/
+def failingObserver : List (Msg Nat) := [.add (fun _ => none) [], .update (fun _ => some 1) []]
+
+/-- `cancel(); cancel()`; then an `Update` -/
+def doubleCancel : List (Msg Nat) := [.add (fun s => some s) [], .remove 1, .remove 1, .update (fun _ => some 1) []]
+
+/-- before the repair the loop deadlocked (blocked in its own `w.cancel()`): the observer is never told
+why, and the `Update` that follows is never answered -/
+theorem no_wedge_false_before_repair :
+    (Old.run 0 failingObserver).status = .wedged ∧ Impl.replies (Old.run 0 failingObserver) = []
+    ∧ Impl.log (Old.run 0 failingObserver) 1 = [] := by decide
+
+/-- before the repair a second cancel dereferenced a nil watcher: the process died -/
+theorem no_crash_false_before_repair :
+    (Old.run 0 doubleCancel).status = .crashed ∧ Impl.replies (Old.run 0 doubleCancel) = [] := by decide
+
+/-- before the repair an `onupdate` error deadlocked the loop as well, and an observer whose callback
+panicked was closed but stayed registered: it was notified again and closed a second time -/
+theorem old_callback_failures :
+    (Old.run 0 ([.add (fun s => some s) [.err]] : List (Msg Nat))).status = .wedged
+    ∧ Impl.log (Old.run 0 ([.add (fun s => some s) [.panic], .update (fun _ => some 1) [], .remove 1] : List (Msg Nat))) 1
+        = [.val 0, .closed true, .val 1, .closed false] := by decide
+
+/-- the repaired loop on the same histories -/
+theorem repaired_on_witnesses :
+    (Impl.run 0 failingObserver).status = .running ∧ Impl.replies (Impl.run 0 failingObserver) = [true]
+    ∧ Impl.log (Impl.run 0 failingObserver) 1 = [.closed true]
+    ∧ (Impl.run 0 doubleCancel).status = .running ∧ Impl.replies (Impl.run 0 doubleCancel) = [true]
+    ∧ Impl.log (Impl.run 0 doubleCancel) 1 = [.val 0, .closed false] := by decide
+
 end Arrai.C17.Theorems
